@@ -123,7 +123,15 @@ func runC15(c Case, st *Stats) error {
 			lastWasMerge = false
 		case "merge":
 			before := datFiles(dirA)
+			if os.Getenv("VERIF_DEBUG") != "" {
+				tr, _ := readTree(dirA)
+				fmt.Printf("BEFORE MERGE (step %d):\n%s", i, dumpImage(&memFS{files: tr}))
+			}
 			err := a.Merge()
+			if os.Getenv("VERIF_DEBUG") != "" {
+				tr, _ := readTree(dirA)
+				fmt.Printf("AFTER MERGE (step %d) err=%v:\n%s", i, err, dumpImage(&memFS{files: tr}))
+			}
 			if a.Dead {
 				st.Eval(c.JSON(), false, "skipped-panic")
 				return nil
